@@ -472,6 +472,7 @@ func checkC15(R *Run) {
 	R.ruleBatchIndependent()
 	R.rule("auth-shape", "(shared with C04) the password that logs in is the stored one: Authenticate returns true only through bcrypt.CompareHashAndPassword(hash of AccountManager.Get(login), supplied password) == nil — no second source of truth (cache of earlier successes) that a password change does not reach")
 	R.ruleAuthShape()
+	R.ruleManagerStoresGiven()
 
 	// ---- acct-shape
 	if g := R.mustFn("(*mobius.YAMLAccountManager).Get"); g != nil {
@@ -658,4 +659,53 @@ func (R *Run) ruleBatchIndependent() {
 		}
 	}
 	R.check(len(carried) == 0, "batch-independent", fname(fn)+": loop over the request's fields", P.pos(fn.Pos()), "no per-entry state survives into the next iteration", "per-entry state is carried from one entry of the batch into the next: "+strings.Join(carried, ", ")+" — an entry without that sub-field is applied with the value left by the entry before it (wrong account renamed / overwritten)")
+}
+
+// ruleManagerStoresGiven (C15, shared with C06 and C04): the account manager is a store, not a policy.  Create
+// persists and registers the account it is given (no field of it is rewritten inside), and Get answers from the
+// map only (no filesystem access keyed by the login a client typed).
+func (R *Run) ruleManagerStoresGiven() {
+	P := R.P
+	R.rule("manager-stores-given", "YAMLAccountManager.Create does not write any field of the account it was handed before marshalling and registering it (the handlers' checks were made on exactly these values); YAMLAccountManager.Get performs no filesystem call: an account exists for login L iff the map has L")
+	if fn := R.mustFn("(*mobius.YAMLAccountManager).Create"); fn != nil {
+		R.analysed(fname(fn))
+		bad := ""
+		eachInstr(fn, func(ins ssa.Instruction) {
+			st, ok := ins.(*ssa.Store)
+			if !ok {
+				return
+			}
+			root, path := addrPath(st.Addr)
+			if len(path) == 0 {
+				return
+			}
+			// the parameter lives in a cell when its address is taken: a store below that cell rewrites the account
+			if a, isA := root.(*ssa.Alloc); isA {
+				if val, single := singleStore(a); single && val == ssa.Value(fn.Params[1]) {
+					f := "a field"
+					if fa, isFA := st.Addr.(*ssa.FieldAddr); isFA {
+						f, _ = fieldOf(fa)
+					}
+					bad = f + " at " + P.ipos(st)
+				}
+			}
+		})
+		R.check(bad == "", "manager-stores-given", fname(fn), P.pos(fn.Pos()), "stores the account as given", "Create rewrites "+bad+" of the account it was given: what is stored is not what the handler checked (e.g. an access bitmap the creator does not hold)")
+	}
+	if fn := R.mustFn("(*mobius.YAMLAccountManager).Get"); fn != nil {
+		R.analysed(fname(fn))
+		fsCall := ""
+		for f := range P.reachFuncs(fn) {
+			if !P.isRepoPkg(pkgOf(f)) {
+				continue
+			}
+			for _, ci := range callsIn(f) {
+				if pathArgs(ci.Common()) != nil {
+					fsCall = calleeName(ci.Common()) + " at " + P.ipos(ci)
+				}
+			}
+		}
+		R.check(fsCall == "", "manager-stores-given", fname(fn), P.pos(fn.Pos()), "map lookup only", "Get touches the filesystem ("+fsCall+"): a login typed by a client selects a file, so an account can exist for a login that no administrator created")
+	}
+	R.floor("manager-stores-given", 2)
 }
